@@ -428,6 +428,11 @@ func (lb *LoadBalancer) AddBackend(backendCfg config.BackendConfig) error {
 	if err != nil {
 		return err
 	}
+	// url.Parse accepts nearly any string ("localhost:8081" parses as scheme "localhost"): only an absolute
+	// http(s) URL with a host can be proxied to
+	if (backendURL.Scheme != "http" && backendURL.Scheme != "https") || backendURL.Host == "" {
+		return fmt.Errorf("backend %q: address %q must be an absolute http(s) URL", backendCfg.Name, backendCfg.Address)
+	}
 
 	// Backend names identify backends (removal, health counters, metrics): they must be unique
 	for _, existing := range lb.strategy.GetBackends() {
